@@ -254,10 +254,10 @@ func opScript(req *sut.Req) (interface{}, error) {
 			}
 			if a.Kind == "cancel" {
 				wg.Add(1)
+				atomic.AddInt32(&cancelsInFlight, 1) // pending from now until CancelQuery has returned
 				go func(tq *startedQuery, after int) {
 					defer wg.Done()
 					time.Sleep(time.Duration(after) * time.Millisecond)
-					atomic.AddInt32(&cancelsInFlight, 1)
 					_, err := query.GetQueryStartTime(tq.Qid) // listed as running right now?
 					mu.Lock()
 					tq.CancelRequested = true
